@@ -82,13 +82,10 @@ def bigsum(dims, body_fn):
                 v = hs[j].arg(0)
                 vars_.append(v)
                 exts.append(hs[j + 1].arg(1))
-        sym.CTX.hyps.extend(hyps)
-        try:
+        with sym.scope(hyps):
             if not sym.feasible():
                 continue          # empty range
             body = body_fn(idx)
-        finally:
-            del sym.CTX.hyps[len(sym.CTX.hyps) - len(hyps):]
         if isinstance(body, SumExpr):
             # nesting: Σ_v (plain + Σ_w c·b) = Σ_v plain + Σ_{v,w} c·b
             if not (_num(body.plain) and body.plain == 0):
